@@ -272,6 +272,110 @@ def check_trait_method_cover(rep, cfg):
     return n
 
 
+# provided methods of core / subtle traits whose documented default IS their specification: an override is judged against it
+CORE_PROVIDED = {
+    ("subtle::ConditionallySelectable", "conditional_assign"): "assign",
+    ("subtle::ConditionallySelectable", "conditional_swap"): "swap",
+    ("core::cmp::PartialEq", "ne"): "ne",
+    ("core::clone::Clone", "clone_from"): "clone_from",
+}
+CORE_IGNORED = {("core::cmp::Eq", "assert_fields_are_eq"), ("core::cmp::Eq", "assert_receiver_is_total_eq")}      # derive artefacts without behaviour
+
+
+def _leaves(t, prefix=""):
+    if t.op == "fp_new_montgomery":
+        return _leaves(t.args[1], prefix + ".0")      # ark_ff::Fp(BigInt, PhantomData) built from its Montgomery limbs
+    if t.op == "struct":
+        out = {}
+        for k, v in zip(t.args[1], t.args[2:]):
+            out.update(_leaves(v, prefix + "." + str(k)))
+        return out
+    if t.op == "array":
+        out = {}
+        for i, v in enumerate(t.args):
+            out.update(_leaves(v, prefix + "[%d]" % i))
+        return out
+    return {prefix: t}
+
+
+def check_core_overrides(rep, cfg, sorts, runner=None):
+    """every override, on one of the given sorts of crate types, of a PROVIDED method of a core / subtle trait: generic code (and subtle's own
+    defaults, e.g. conditional_swap through conditional_assign) reach it instead of the default, so it has to do what the default does"""
+    n = 0
+    runner = runner or (lambda path: cfg.run(path))
+    for im in cfg.facts["impls"]:
+        td = im.get("trait_def") or ""
+        if not (td.startswith("core::") or td.startswith("subtle::")) or sort_of(im.get("self", ""))[0] not in sorts or "r1cs" in im.get("self", ""):
+            continue
+        items = {it["name"]: it["path"] for it in im["items"] if it["kind"] == "Fn"}
+        for name in im.get("overridden", []):
+            if (td, name) in CORE_IGNORED:
+                continue
+            n += 1
+            key = "OVERRIDE/%s/<%s as %s>::%s" % (cfg.name, im["self"].split("::")[-1], td.split("::")[-1], name)
+            kind = CORE_PROVIDED.get((td, name))
+            path = items.get(name)
+            if kind is None or path not in cfg.prog.bodies:
+                rep.ob(key, False, "%s overrides the provided method %s::%s; the trait's default is this method's specification and no rule here can compare this "
+                       "override with it (review it and add a rule, or drop the override)" % (im["self"].split("::")[-1], td, name), where=im.get("sp"))
+                continue
+            out = runner(path)
+            b = cfg.prog.bodies[path]
+            names = [p_.get("name") for p_ in b["params"]]
+            P_ = [mk("param", x) for x in names]
+            ok, why = False, ""
+            if kind in ("assign", "swap"):
+                sel = items.get("conditional_select")
+                if sel is None or sel not in cfg.prog.bodies:
+                    why = "no conditional_select to compare with"
+                else:
+                    so = runner(sel)
+                    sn = [mk("param", p_.get("name")) for p_ in cfg.prog.bodies[sel]["params"]]
+                    want0 = Tm.subst(so.value, {sn[0]: P_[0], sn[1]: P_[1], sn[2]: P_[2]})
+                    got0 = out.outs.get(0)
+                    pairs = [(got0, want0, "self")]
+                    if kind == "swap":
+                        pairs.append((out.outs.get(1), Tm.subst(so.value, {sn[0]: P_[1], sn[1]: P_[0], sn[2]: P_[2]}), "other"))
+                    bad = []
+                    for got, want, who in pairs:
+                        if got is None:
+                            bad.append("%s is not written" % who)
+                            continue
+                        gl, wl = _leaves(got), _leaves(want)
+                        if gl.keys() != wl.keys():
+                            # an in-place update of an opaque parameter: read the components the selection defines
+                            gl = {k: _project(got, k) for k in wl}
+                        for k in wl:
+                            if gl[k] is not wl[k]:
+                                bad.append("%s%s = %s, conditional_select gives %s" % (who, k, Tm.show(gl[k], maxdepth=4), Tm.show(wl[k], maxdepth=4)))
+                    ok = not bad and not out.unmodelled and not so.unmodelled
+                    why = "; ".join(bad[:3]) or "; ".join((out.unmodelled + so.unmodelled)[:2])
+            elif kind == "ne":
+                eqp = items.get("eq")
+                if eqp in cfg.prog.bodies:
+                    eo = runner(eqp)
+                    en = [mk("param", p_.get("name")) for p_ in cfg.prog.bodies[eqp]["params"]]
+                    want = Tm.not_(Tm.subst(eo.value, {en[0]: P_[0], en[1]: P_[1]}))
+                    ok = out.value is want and not out.unmodelled
+                    why = "ne = %s" % Tm.show(out.value, maxdepth=5)
+            elif kind == "clone_from":
+                got0 = out.outs.get(0)
+                ok = got0 is P_[1] and not out.unmodelled
+                why = "self after clone_from = %s" % (Tm.show(got0, maxdepth=4) if got0 is not None else None)
+            rep.ob(key, ok, "an override of %s::%s must do what the trait's default does (%s); %s" % (
+                td, name, {"assign": "*self = conditional_select(self, other, choice)", "swap": "(a, b) = (select(a, b, c), select(b, a, c))",
+                           "ne": "!eq", "clone_from": "*self = source.clone()"}[kind], why or "ok"), where=cfg.where(path))
+    return n
+
+
+def _project(t, key):
+    """component `.a.b[2]` of a term"""
+    import re as _re
+    for m in _re.finditer(r"\.([A-Za-z0-9_]+)|\[(\d+)\]", key):
+        t = field(t, m.group(1)) if m.group(1) is not None else Tm.index(t, lit(int(m.group(2))))
+    return t
+
+
 def check_identity_forms(rep, cfg, prop):
     """conversions / cofactor forms of the arkworks traits: each must denote its own operand (or the generator constant)"""
     from . import consts as K
